@@ -515,7 +515,7 @@ func evalCase(kind string, args []string) (res string) {
 		if !ok {
 			return "X~parse"
 		}
-		return encOpts(o.WithDefaults())
+		return encOpts(o.WithDefaults()) + ";" + encOpts(o.WithDefaults().WithDefaults())
 	}
 	return "X~parse"
 }
